@@ -1,10 +1,12 @@
 import Lean.Data.Json
 import PteraModel.Driver.Tools
+import PteraModel.Driver.Selector
 open Lean
 
 def dispatch (j : Json) : Json :=
   match (j.getObjValAs? String "op").toOption.getD "" with
   | "tools" => Ptera.Driver.Tools.handle j
+  | "lex" | "ptree" | "parse" | "select0" => Ptera.Driver.Selector.handle j
   | "ping" => Json.mkObj [("ok", "pong")]
   | _ => Json.mkObj [("err", "bad-op")]
 
